@@ -292,7 +292,15 @@ def parse_enum(enum_type: type[E]) -> Callable[[str], E]:
     # "(...).parse_enum.<locals>._parse_enum" or something.
     @functools.wraps(enum_type)
     def _parse_enum(v: str) -> E:
-        return enum_type[v]
+        try:
+            return enum_type[v]
+        except KeyError:
+            # argparse only turns ValueError / TypeError / ArgumentTypeError into a proper
+            # "invalid value" error (exit status 2); a KeyError would escape as a traceback.
+            raise ValueError(
+                f"{v!r} is not the name of a member of {enum_type.__name__} "
+                f"(choose from {', '.join(e.name for e in enum_type)})"
+            ) from None
 
     _parsing_fns[enum_type] = _parse_enum
     return _parse_enum
